@@ -8,6 +8,7 @@ package checks
 // 0x3F and boundary ids. Oracle: a decision table written from the statement.
 
 import (
+	"strings"
 	"encoding/json"
 	"fmt"
 	"testing"
@@ -248,6 +249,11 @@ type c12RCase struct {
 	Aux              []uint32 `json:"aux"`
 	Mask             uint32   `json:"mask"`
 	ReadOnly         bool     `json:"read_only"`
+	// Squash: the export's squash mode ("" = none). The decision is made for the effective identity, i.e. uid, gid
+	// and auxiliary list after squashing; object mode and owner are then planted directly in the backend because a
+	// squashed root cannot install them through SETATTR.
+	Squash string `json:"squash,omitempty"`
+	Conn   bool   `json:"conn,omitempty"` // requests travel over the record-marking connection loop
 }
 
 func genC12R(t *rapid.T) c12RCase {
@@ -257,6 +263,8 @@ func genC12R(t *rapid.T) c12RCase {
 		Uid: rapid.SampledFrom(ids).Draw(t, "uid"), Gid: rapid.SampledFrom(ids).Draw(t, "gid"),
 		Mask: pick(t, "mask", uint32(0x3f), 0x40, 0x7f, 0xffffffff, 0x80000001, rapid.Uint32().Draw(t, "rmask")), ReadOnly: rapid.Bool().Draw(t, "ro")}
 	c.Aux = rapid.SliceOfN(rapid.SampledFrom(ids), 0, 16).Draw(t, "aux")
+	c.Squash = pick(t, "squash", "", "", "none", "root", "all", "ALL", "Root")
+	c.Conn = rapid.IntRange(0, 3).Draw(t, "conn") == 0
 	return c
 }
 
@@ -264,22 +272,55 @@ func runC12R(tb stat.TB, c c12RCase) {
 	v := vfs.New()
 	v.SeedFile("/f", 0644, 0, 0, []byte("x"))
 	v.SeedDir("/d", 0755, 0, 0)
-	s := newSession(tb, v, absnfs.ExportOptions{Squash: "none", AttrCacheTimeout: 1, AttrCacheSize: 2})
+	squashed := c.Squash != "" && strings.ToLower(c.Squash) != "none"
+	sq := c.Squash
+	if sq == "" {
+		sq = "none"
+	}
+	s := newSession(tb, v, absnfs.ExportOptions{Squash: sq, AttrCacheTimeout: 1, AttrCacheSize: 2})
 	defer s.close()
+	s.e.ViaConn = c.Conn
+	fu, fg := c.FU, c.FG
 	abandoned := guard(func() {
 		root := s.mount()
 		name := "f"
 		if c.Dir {
 			name = "d"
 		}
-		r := s.nfs(nfsx.ProcLookup, nfsx.ArgsDirop(root, name))
-		sr := s.nfs(nfsx.ProcSetattr, nfsx.ArgsSetattr(r.Fh, nfsx.Sattr{Mode: nfsx.U32p(c.Mode), Uid: nfsx.U32p(c.FU), Gid: nfsx.U32p(c.FG)}, nil))
-		if sr.Status != nfsx.OK {
-			stat.Discard(false)
-			panic(abandon{"setattr refused"})
+		var r *nfsx.Res
+		if !squashed {
+			r = s.nfs(nfsx.ProcLookup, nfsx.ArgsDirop(root, name))
+			sr := s.nfs(nfsx.ProcSetattr, nfsx.ArgsSetattr(r.Fh, nfsx.Sattr{Mode: nfsx.U32p(c.Mode), Uid: nfsx.U32p(c.FU), Gid: nfsx.U32p(c.FG)}, nil))
+			if sr.Status != nfsx.OK {
+				stat.Discard(false)
+				panic(abandon{"setattr refused"})
+			}
+		} else {
+			// A squashed root cannot assign owners, and absnfs knows an object's owner only from what it recorded
+			// itself (absfs reports none). The object is therefore made through the server by caller (FU, FG) - it
+			// gets that caller's effective identity - and the owner the server reports for it in GETATTR is the
+			// owner the decision is judged against. The mode is judged against the backend.
+			maker := drv.User(c.FU, c.FG)
+			if c.Dir {
+				r = s.nfsAs(maker, nfsx.ProcMkdir, nfsx.ArgsMkdir(root, "made", nfsx.Sattr{Mode: nfsx.U32p(c.Mode)}))
+			} else {
+				r = s.nfsAs(maker, nfsx.ProcCreate, nfsx.ArgsCreate(root, "made", nfsx.Unchecked, nfsx.Sattr{Mode: nfsx.U32p(c.Mode)}, [8]byte{}))
+			}
+			if r.Status != nfsx.OK || len(r.Fh) == 0 {
+				stat.Discard(false)
+				panic(abandon{"setup create refused"})
+			}
+			s.nfsAs(maker, nfsx.ProcSetattr, nfsx.ArgsSetattr(r.Fh, nfsx.Sattr{Mode: nfsx.U32p(c.Mode)}, nil))
+			ga := s.nfs(nfsx.ProcGetattr, nfsx.ArgsFh(r.Fh))
+			ent, ok := v.PeekLstat("/made")
+			if ga.Status != nfsx.OK || ga.Attr == nil || !ok || ent.Perm&0o777 != c.Mode&0o777 {
+				stat.Discard(false)
+				panic(abandon{"setup mode not installed"})
+			}
+			fu, fg = ga.Attr.Uid, ga.Attr.Gid
 		}
 		if c.ReadOnly {
-			if err := s.e.NFS.UpdatePolicyOptions(absnfs.PolicyOptions{ReadOnly: true, Squash: "none"}); err != nil {
+			if err := s.e.NFS.UpdatePolicyOptions(absnfs.PolicyOptions{ReadOnly: true, Squash: sq}); err != nil {
 				tb.Fatalf("harness: %v", err)
 			}
 		}
@@ -289,7 +330,8 @@ func runC12R(tb stat.TB, c c12RCase) {
 			stat.Discard(false)
 			panic(abandon{"access failed"})
 		}
-		want := accessTable(c.Mode, c.Dir, c.FU, c.FG, c.Uid, c.Gid, c.Aux, c.Mask, c.ReadOnly)
+		eu, eg, eaux, _ := refSquash(sq, c.Uid, c.Gid, c.Aux)
+		want := accessTable(c.Mode, c.Dir, fu, fg, eu, eg, eaux, c.Mask, c.ReadOnly)
 		if ar.Access != want {
 			sig := "access-under-grants"
 			if ar.Access&^c.Mask != 0 {
@@ -297,13 +339,17 @@ func runC12R(tb stat.TB, c c12RCase) {
 			} else if ar.Access&^want != 0 {
 				sig = "access-over-grants"
 			}
-			stat.Violate(tb, "C12", "TestC12Rapid", sig, c, "%+v: granted %#x, UNIX rules give %#x", c, ar.Access, want)
+			stat.Violate(tb, "C12", "TestC12Rapid", sig, c, "%+v (object owner %d/%d, effective caller %d/%d aux %v): granted %#x, UNIX rules give %#x", c, fu, fg, eu, eg, eaux, ar.Access, want)
 		}
 	})
 	if abandoned {
 		return
 	}
-	stat.Case(c, true)
+	ls := []string{"squash_" + strings.ToLower(sq)}
+	if c.Conn {
+		ls = append(ls, "over_connection_loop")
+	}
+	stat.Case(c, true, ls...)
 }
 
 var propC12R = defProp("C12", "TestC12Rapid", genC12R, runC12R)
